@@ -68,7 +68,9 @@ impl Which {
     fn opts(self) -> GenOpts {
         let mut o = GenOpts::full();
         match self {
-            Which::C01 => {}
+            Which::C01 => {
+                o.shared_prefix = 30;
+            }
             Which::C02 => {
                 o.markers = false;
                 o.builtin = 20;
@@ -80,6 +82,7 @@ impl Which {
                 o.max_nts = 6;
             }
             Which::C06 => {
+                o.shared_prefix = 90;
                 o.builtin = 70;
                 o.fallible = false;
                 o.marker_chance = 110;
@@ -89,6 +92,7 @@ impl Which {
             Which::C07 => {
                 o.marker_chance = 60;
                 o.eps_weight = 30;
+                o.shared_prefix = 70;
             }
             Which::C08 => {}
             Which::C12 => {}
@@ -212,6 +216,11 @@ fn build_cases(tape: &[u8], which: Which, n_inputs_scale: usize) -> Vec<Result<G
         Which::C12 => gen::gen_prec(&mut t),
         Which::C25 if t.chance(90) => gen::gen_prec(&mut t),
         Which::C14 if t.chance(190) => gen::gen_inline_focus(&mut t),
+        // CFG skeletons with the template families (LR(1)-not-LALR(1), bracket
+        // families, nullable chains ..): unit-typed, so only the language, the
+        // error position and the expected lists are observable - exactly what
+        // these properties are about
+        Which::C01 | Which::C04 | Which::C05 | Which::C07 | Which::C08 if t.chance(80) => gen::gen_cfg(&mut t).0,
         Which::C16 => gen::gen_recovery(&mut t),
         _ => gen::gen_full(&mut t, &opts),
     };
@@ -1671,8 +1680,11 @@ pub fn run(ctx: Ctx, replay: Option<PathBuf>, which: Which) -> i32 {
         });
     }
     let (n_grammars, scale) = match which {
-        Which::C08 => ctx.tier.pick((60, 2), (1200, 3)),
-        _ => ctx.tier.pick((60, 2), (1500, 3)),
+        Which::C08 => ctx.tier.pick((100, 2), (1200, 3)),
+        Which::C12 => ctx.tier.pick((200, 2), (3000, 3)),
+        Which::C19 | Which::C17 | Which::C13 => ctx.tier.pick((160, 2), (2500, 3)),
+        Which::C14 | Which::C25 => ctx.tier.pick((80, 2), (1200, 3)),
+        _ => ctx.tier.pick((120, 2), (1500, 3)),
     };
     let chunk = 240usize;
     let n_grammars = std::env::var("VERIF_N").ok().and_then(|s| s.parse().ok()).unwrap_or(n_grammars);
